@@ -932,8 +932,34 @@ fn wr_check(c: &WriteReadCase) -> Verdict {
         }
     }
 
+    // the same through a destination that accepts only a few bytes per write call (any `Write`
+    // may; a BGZF writer does at every block boundary): the file must be the same
+    let short_max = 1 + (c.cap as usize % 9);
+    {
+        let sink = crate::io_adv::sink::ShortSink::new(short_max);
+        match doc.write_with_noodles_to(sink.clone(), width) {
+            Err(e) => fails.push("fasta.writer.short-writes", format!("fasta::io::Writer fails on a destination accepting {short_max} bytes per call: {e}")),
+            Ok(_) => {
+                if sink.bytes() != bytes {
+                    fails.push("fasta.writer.short-writes", format!("fasta::io::Writer at width {width} into a destination accepting {short_max} bytes per call wrote {} bytes, {} into a Vec: {:?}", sink.bytes().len(), bytes.len(), BString::from(trunc_bytes(&sink.bytes()))));
+                }
+            }
+        }
+    }
+
     // FASTQ
     let qbytes = c.fastq.write_with_noodles().map_err(fail_io("fastq.writer.error", "fastq::io::Writer"))?;
+    {
+        let sink = crate::io_adv::sink::ShortSink::new(short_max);
+        match c.fastq.write_with_noodles_to(sink.clone()) {
+            Err(e) => fails.push("fastq.writer.short-writes", format!("fastq::io::Writer fails on a destination accepting {short_max} bytes per call: {e}")),
+            Ok(()) => {
+                if sink.bytes() != qbytes {
+                    fails.push("fastq.writer.short-writes", format!("fastq::io::Writer into a destination accepting {short_max} bytes per call wrote {} bytes, {} into a Vec", sink.bytes().len(), qbytes.len()));
+                }
+            }
+        }
+    }
     if qbytes != c.fastq.render_as_writer() {
         fails.push("fastq.writer.bytes", format!("fastq::io::Writer wrote {:?}", BString::from(trunc_bytes(&qbytes))));
     }
